@@ -91,32 +91,36 @@ def select(behs, n, seed):
     return out
 
 
-FIELDS = dict(usage=0, buf=0, id=0, v=0, p=0, items=[], q=0, k=0, f=0, hits=[], ok=False)
+NEEDS = dict(Setup=("usage", "buf"), Upsert=("id", "v", "p", "ok"), UpsertBatch=("items", "ok"), Delete=("id", "ok"),
+             Optimize=("ok",), Get=("id", "ok", "v", "p"), Query=("q", "k", "f", "ok", "hits"), CommitFailed=())
+DEFAULT = dict(usage=0, buf=0, id=0, v=0, p=0, items=[], q=0, k=0, f=0, hits=[], ok=False)
 
 
 def norm(e):
+    """The fields VectorStoreTrace reads from a line of this kind, in the compact encoding (hit = [id, sd, p]);
+    ndJsonDeserialize is slow, so nothing else is written."""
     o = {"ev": e["ev"]}
-    for k, d in FIELDS.items():
-        o[k] = e.get(k, d)
-    o["hits"] = [dict(id=h["id"], sd=h["sd"], p=h["p"]) for h in (o["hits"] or [])]
-    o["items"] = [list(x) for x in (o["items"] or [])]
-    o["gets"] = []
-    o["queries"] = []
+    for k in NEEDS.get(e["ev"], ()):
+        o[k] = e.get(k, DEFAULT[k])
+    if "hits" in o:
+        o["hits"] = [[h["id"], h["sd"], h["p"]] for h in (o["hits"] or [])]
+    if "items" in o:
+        o["items"] = [list(x) for x in (o["items"] or [])]
     return o
 
 
 def pack(evs):
-    """Pack every run of Get/Query lines into one Observe line (same content, 20-60x fewer TLC steps)."""
+    """Pack every run of Get/Query lines into one Observe line (same content, far fewer TLC steps)."""
     out, cur = [], None
     for e in evs:
         if e["ev"] in ("Get", "Query"):
             if cur is None:
-                cur = norm({"ev": "Observe"})
+                cur = {"ev": "Observe", "gets": [], "queries": []}
                 out.append(cur)
             if e["ev"] == "Get":
-                cur["gets"].append(dict(id=e["id"], ok=e["ok"], v=e["v"], p=e["p"]))
+                cur["gets"].append([e["id"], e["ok"], e["v"], e["p"]])
             else:
-                cur["queries"].append(dict(q=e["q"], k=e["k"], f=e["f"], ok=e["ok"], hits=e["hits"]))
+                cur["queries"].append([e["q"], e["k"], e["f"], e["ok"], e["hits"]])
         else:
             cur = None
             out.append(e)
@@ -133,7 +137,7 @@ def kind_of(ev):
     if t == "Query":
         if not ev["ok"]:
             return "err"
-        return "score-not-from-table" if any(h["sd"] == -99 for h in ev["hits"]) else "hits"
+        return "score-not-from-table" if any(h[1] == -99 for h in ev["hits"]) else "hits"
     if t == "CommitFailed":
         err = raw.get("err", "")
         if "MarshalJSON" in err and ("invalid character" in err or "unsupported value" in err):
@@ -179,9 +183,9 @@ def run(c):
         progs.append(dict(name="w%d_u%d%s" % (i, usage, policy[0]), usage=usage, buffer=b["buf"], policy=policy,
                           steps=steps_of(b), **probe))
     gen_main = dict(count=c.pick(12, 120), len=c.pick(30, 60), nids=10, nv=6, np=2, configs=[[0, 0], [2, 0], [2, 2], [0, 2]],
-                    ks=[0, 1, 3, 12], p_optimize=0.1, probe_every=1)
+                    ks=[0, 1, 3, 12], p_optimize=0.1, probe_every=1, probe_sample=8)
     gen_side = dict(count=c.pick(6, 40), len=c.pick(20, 40), nids=6, nv=6, np=2, configs=[[1, 0], [2, 1], [1, 2], [0, 1]],
-                    ks=[1, 3, 12], p_optimize=0.12, probe_every=1)
+                    ks=[1, 3, 12], p_optimize=0.12, probe_every=1, probe_sample=8)
 
     binp = c.build("vectorstore")
     shards = c.pick(4, 6)
@@ -221,7 +225,7 @@ def run(c):
         calls += len(nevs)
         setup = nevs[0]
         cl = cls_of(setup["usage"], setup["buf"])
-        distinct.add(json.dumps([cl] + [[e["ev"], e["id"], e["v"], e["p"], e["items"]] for e in nevs
+        distinct.add(json.dumps([cl] + [[e["ev"], e.get("id"), e.get("v"), e.get("p"), e.get("items")] for e in nevs
                                         if e["ev"] not in ("Get", "Query", "Setup")]))
         items.append((name, cl, nevs))
 
@@ -229,43 +233,43 @@ def run(c):
         return [{k: v for k, v in e.items() if k != "_raw"} for e in evs]
 
     by_name = {name: (cl, nevs) for name, cl, nevs in items}
+    if len(by_name) != len(items):
+        raise vlib.InfraError("duplicate program names")
     packed = [(name, pack(strip(nevs))) for name, cl, nevs in items]
-    rejected = []
-    CH = 60
-    budget = c.pick(24, 60)        # detailed classifications; beyond it rejections are only counted
-    for off in range(0, len(packed), CH):
-        rej = c.validate_traces("VectorStoreTrace", "VectorStoreTrace.cfg", packed[off:off + CH], chunk=CH,
-                                timeout=c.pick(600, 1800))
-        rejected += rej
-        if len(rejected) > 4 * budget:
-            break
+    # strict validation of everything, a few TLC processes side by side
+    par = c.pick(4, 6)
+    groups = [packed[i::par] for i in range(par)]
+    with concurrent.futures.ThreadPoolExecutor(max_workers=par) as ex:
+        res = list(ex.map(lambda a: bulk_validate(c, "VectorStoreTraceBulk.cfg", a[1], "bulk%d" % a[0]),
+                          enumerate(groups)))
+    rejected = sorted(set(n for part in res for n, _ in part))
+    # is the whole log of a rejected trace explained by the named deviations of the pinned commit?
+    cand = [(n, pack(strip(by_name[n][1]))) for n in rejected if by_name[n][0][3] != "0"]
+    unexplained = set(n for n, _ in bulk_validate(c, "VectorStoreTraceAsIsBulk.cfg", cand, "asis")) if cand else set()
+    explained = set(n for n, _ in cand) - unexplained
+    # which call exactly: the unpacked logs of the rejected traces
+    flat = [(n, strip(by_name[n][1])) for n in rejected]
+    where = dict(bulk_validate(c, "VectorStoreTraceBulk.cfg", flat, "flat")) if flat else {}
     per_class = {}
-    explained = 0
-    for x in rejected[:budget]:
-        name = x["trace"]
+    for name in rejected:
         cl, nevs = by_name[name]
-        flat = strip(nevs)
-        # which call exactly: validate the unpacked log
-        rj = c.validate_traces("VectorStoreTrace", "VectorStoreTrace.cfg", [(name, flat)], chunk=1)
-        if not rj:
+        if name not in where:
             raise vlib.InfraError("packed trace rejected but unpacked accepted: %s" % name)
-        idx = rj[0]["index"]
-        ev = nevs[idx] if idx is not None and idx >= 0 else {"ev": "Reset", "_raw": {}}
-        mode = "strict"
-        if cl[3] != "0":
-            # is the whole log explained by the named deviations of the pinned commit?
-            if not c.validate_traces("VectorStoreTrace", "VectorStoreTraceAsIs.cfg", [(name, pack(flat))], chunk=1):
-                mode = "asis"
-                explained += 1
+        idx = where[name]
+        ev = nevs[idx]
+        mode = "asis" if name in explained else "strict"
         sig = "%s:%s:%s:%s" % (mode, cl, ev["ev"], kind_of(ev))
         per_class[sig] = per_class.get(sig, 0) + 1
+        if per_class[sig] > 2:
+            continue        # same signature: counted, not reported again
         prog = [e["_raw"] for e in nevs if e["ev"] not in ("Get", "Query")]
         what = ("%s: after %s the real store answered %s, which %s" % (
-            CLASS_TEXT[cl], describe(prog, nevs, idx), json.dumps(slim(ev)),
+            CLASS_TEXT[cl], describe(nevs, idx), json.dumps(slim(ev)),
             "only the model with the named deviations (Consolidate migrates tombstones / buffer-blind reads) allows"
             if mode == "asis" else "VectorStore does not allow"))
         c.report(sig, what, dict(program=prog, rejected_index=idx, rejected_event=ev.get("_raw"),
-                                 cls=cl, trace=[e["_raw"] for e in nevs[:idx + 1]][-80:], tlc=rj[0]["tlc_tail"]))
+                                 cls=cl, trace_tail=[e["_raw"] for e in nevs[:idx + 1]][-60:]))
+    c.cov["traces_validated_against_impl"] += len(items) - len(rejected)
 
     # ---- 4. the as-is model is itself bound: every witness log must be a behaviour of it -------------------
     c.sample(dict(model_program=sel[len(sel) // 2]))
@@ -280,7 +284,7 @@ def run(c):
         asis_witnesses_replayed=len(wsel), programs_run=len(traces), api_calls_validated=calls,
         evaluations=calls, distinct_nontrivial=len(distinct),
         rule="one case = one program (configuration class, sequence of mutating calls with arguments) executed on the real store with Get on every id and Query on every probe after every call; distinct by (class, call sequence); evaluations = API calls whose result TLC checked",
-        rejections=len(rejected), rejections_explained_by_named_deviations=explained, rejection_signatures=per_class,
+        rejections=len(rejected), rejections_explained_by_named_deviations=len(explained), rejection_signatures=per_class,
         coverage_actions={k: v for k, v in r.coverage.items()} if r.coverage else None,
     ))
     c.assumptions += [
@@ -288,6 +292,40 @@ def run(c):
         "Query recall is not required (approximate search, nprobe = 2): any subset of the eligible items in rank order is accepted",
         "vectors of equal norm so that cosine order is integer dot-product order",
     ]
+
+
+def bulk_validate(c, cfg, traces, tag):
+    """One TLC run over many traces (bulk mode of VectorStoreTrace: a line that is not a step of the model is
+    reported and the rest of that trace skipped).  Returns [(trace name, index of the rejected event)]."""
+    lines, index = [], []
+    for ti, (name, evs) in enumerate(traces):
+        lines.append(json.dumps({"ev": "Reset", "trace": name}))
+        index.append((ti, -1))
+        for ei, ev in enumerate(evs):
+            lines.append(json.dumps(ev, sort_keys=True))
+            index.append((ti, ei))
+    r = c.tlc("VectorStoreTrace", cfg, workers=1, timeout=c.pick(900, 2400), tag=tag,
+              files={"trace.ndjson": "\n".join(lines) + "\n"})
+    if r.timed_out:
+        raise vlib.InfraError("trace validation timed out (%s, %d lines)" % (cfg, len(lines)))
+    hwm, rej = None, []
+    for pr in r.prints:
+        m = re.search(r'"HWM",\s*(\d+)', pr)
+        if m:
+            hwm = int(m.group(1))
+        m = re.search(r'"REJ",\s*(\d+)', pr)
+        if m:
+            rej.append(int(m.group(1)))
+    if hwm is None or hwm < len(lines) or r.violated not in (None, "postcondition"):
+        raise vlib.InfraError("bulk trace validation did not reach the end (%s): hwm=%s of %d, violated=%s\n%s" %
+                              (cfg, hwm, len(lines), r.violated, r.out[-3000:]))
+    c.cov["states"] += r.distinct
+    c.cov["transitions"] += r.generated
+    out = []
+    for ln in rej:
+        ti, ei = index[ln - 1]
+        out.append((traces[ti][0], ei))
+    return out
 
 
 def slim(ev):
@@ -302,7 +340,7 @@ def slim(ev):
     return raw
 
 
-def describe(prog, nevs, idx):
+def describe(nevs, idx):
     out = []
     for e in nevs[:idx + 1]:
         t = e["ev"]
